@@ -28,6 +28,9 @@ pub struct Case {
     pub ops: Vec<Op>,
     /// after the ops, drain with until_exhausted() (finite sources only)
     pub drain: bool,
+    /// finite sources only: this many frames are still index-coded after the source reports exhaustion
+    #[serde(default)]
+    pub tail: u64,
 }
 
 const PREFILL_BASE: u64 = 20_000;
@@ -35,7 +38,7 @@ const PREFILL_BASE: u64 = 20_000;
 fn run_typed<F: Coded>(c: &Case, st: &mut Stats) -> CheckResult {
     ensure!(c.cap >= 1 && c.start < c.cap && c.prefill <= c.cap, "bad case: invalid raw parts");
     let counters = Counters::new();
-    let probe: Probe<F> = Probe::new(c.src_len, counters.clone());
+    let probe: Probe<F> = Probe::with_tail(c.src_len, c.tail, counters.clone());
     // storage: dead slots hold a value that decodes to a code no stream position ever has
     let mut slots: Vec<F> = vec![F::code(F::CODES - 1); c.cap];
     for i in 0..c.prefill {
@@ -53,10 +56,7 @@ fn run_typed<F: Coded>(c: &Case, st: &mut Stats) -> CheckResult {
     let cap = c.cap as u64;
     let mut refill = |q: &mut VecDeque<Option<u64>>, src_pos: &mut u64| {
         for _ in 0..cap {
-            let e = match c.src_len {
-                Some(n) if *src_pos >= n => None,
-                _ => Some(*src_pos),
-            };
+            let e = Probe::<F>::expected(c.src_len, c.tail, *src_pos);
             q.push_back(e);
             *src_pos += 1;
         }
@@ -138,7 +138,7 @@ fn run_typed<F: Coded>(c: &Case, st: &mut Stats) -> CheckResult {
             let mut pos = src_pos;
             while pos < n {
                 for _ in 0..cap {
-                    expect.push(if pos < n { Some(pos) } else { None });
+                    expect.push(Probe::<F>::expected(Some(n), c.tail, pos));
                     pos += 1;
                 }
             }
@@ -157,6 +157,7 @@ fn run_typed<F: Coded>(c: &Case, st: &mut Stats) -> CheckResult {
     st.class_if(c.cap == 1, "capacity 1");
     st.class_if(c.src_len.map_or(false, |n| n % cap != 0), "source length not a multiple of capacity");
     st.class_if(partial_batch, "partially drained batch");
+    st.class_if(c.src_len.is_some() && c.tail > 0, "source reports exhaustion while still yielding frames");
     Ok(())
 }
 
@@ -199,8 +200,9 @@ pub fn case_strategy() -> impl Strategy<Value = Case> {
             any::<bool>(),
             proptest::collection::vec(prop_oneof![4 => Just(Op::Next), 3 => (0..=cap + 1).prop_map(Op::NextFrames), 1 => Just(Op::IsExhausted), 1 => (0..=cap + 1).prop_map(Op::NextFramesNth)], 0..120),
             any::<bool>(),
+            prop_oneof![2 => Just(0u64), 1 => 1u64..12],
         )
-            .prop_map(move |(start, prefill, src_len, int_frames, ops, drain)| Case { cap, start, prefill, src_len, int_frames, ops, drain })
+            .prop_map(move |(start, prefill, src_len, int_frames, ops, drain, tail)| Case { cap, start, prefill, src_len, int_frames, ops, drain, tail })
     })
 }
 
@@ -211,7 +213,7 @@ pub fn run(ctx: &mut Ctx) {
          frames and up to 120 operations; non-trivial: pre-fill with start != 0, capacity 1, source length not a multiple of the capacity, or a partially drained batch",
     );
     ctx.assume("expected stream = pre-filled frames, then the probe's index-coded frames, then equilibrium; the probe's pull counter must jump by exactly the capacity when (and only when) the buffer was empty at the call");
-    for c in ["pre-fill with start != 0", "capacity 1", "source length not a multiple of capacity", "partially drained batch", "drained to exhaustion"] {
+    for c in ["pre-fill with start != 0", "capacity 1", "source length not a multiple of capacity", "partially drained batch", "drained to exhaustion", "source reports exhaustion while still yielding frames"] {
         ctx.require_class(c);
     }
     let max_cap = ctx.pick(4usize, 5);
@@ -225,7 +227,7 @@ pub fn run(ctx: &mut Ctx) {
                 for src in 0..=max_src {
                     for ops in &strings {
                         let k = cases.len();
-                        cases.push(Case { cap, start, prefill, src_len: Some(src), int_frames: k % 2 == 0, ops: ops.clone(), drain: true });
+                        cases.push(Case { cap, start, prefill, src_len: Some(src), int_frames: k % 2 == 0, ops: ops.clone(), drain: true, tail: (k % 3) as u64 });
                     }
                 }
             }
